@@ -40,6 +40,7 @@ type p01Gen struct {
 	calleeKind int    // -1 until the first call is generated
 	calleeFlag bool
 	simple     int
+	callees    int    // number of callee shapes enabled (7: one parameter; 10: plus three two-parameter shapes)
 	t          bool   // P01L: "t is nil"
 	usesVal    bool   // P01L: t.val() is called somewhere
 	valHit     bool   // P01L: some call of t.val() had a nil receiver
@@ -108,20 +109,33 @@ func (g *p01Gen) simpleStmt(tag, ind string, cond bool) {
 		g.g = ndIteBool(cond, g.x, g.g)
 	case 7:
 		g.deref(g.emit(ind+"_ = *y"), g.y, cond)
-	default:
+	case 8:
 		g.deref(g.emit(ind+"_ = *g"), g.gval(), cond)
+	case 9: // parallel assignment: swap
+		g.emit(ind + "x, y = y, x")
+		g.x, g.y = ndIteBool(cond, g.y, g.x), ndIteBool(cond, g.x, g.y)
+	default: // parallel assignment: the right-hand sides are evaluated before any store
+		g.emit(ind + "x, y = nil, x")
+		g.x, g.y = ndIteBool(cond, true, g.x), ndIteBool(cond, g.x, g.y)
 	}
 }
 
 // call emits `x = callee(y)` (choosing the callee at the first call) and applies its semantics.
 func (g *p01Gen) call() {
 	if g.calleeKind < 0 {
-		g.calleeKind = ndChoice("callee", 7)
+		if g.callees == 0 {
+			g.callees = 7
+		}
+		g.calleeKind = ndChoice("callee", g.callees)
 		if g.calleeKind == 5 {
 			g.calleeFlag = ndBool("calleeflag")
 		}
 	}
-	callLine := g.emit("\tx = callee(y)")
+	callText := "\tx = callee(y)"
+	if g.calleeKind >= 7 {
+		callText = "\tx = callee(x, y)" // two parameters
+	}
+	callLine := g.emit(callText)
 	arg := g.y
 	switch g.annA {
 	case 1:
@@ -143,8 +157,16 @@ func (g *p01Gen) call() {
 		ret = arg
 	case 5:
 		ret = ndIteBool(g.calleeFlag, true, arg)
-	default:
+	case 6:
 		ret = g.gval()
+	case 7: // callee(a, b) returns b
+		ret = g.y
+	case 8: // callee(a, b) dereferences a, returns b
+		g.panics = ndOr(g.panics, ndAnd(g.live, g.x))
+		ret = g.y
+	default: // callee(a, b) dereferences b, returns a
+		g.panics = ndOr(g.panics, ndAnd(g.live, g.y))
+		ret = g.x
 	}
 	switch g.annR {
 	case 1:
@@ -215,6 +237,21 @@ func (g *p01Gen) emitCallee() int {
 	if len(anns) > 0 {
 		g.emit("// " + strings.Join(anns, ", "))
 	}
+	if g.calleeKind >= 7 {
+		g.calleeFirst = g.emit("func callee(a, b *int) *int {")
+		switch g.calleeKind {
+		case 7:
+			g.emit("\treturn b")
+		case 8:
+			calleeDeref = g.emit("\t_ = *a")
+			g.emit("\treturn b")
+		default:
+			calleeDeref = g.emit("\t_ = *b")
+			g.emit("\treturn a")
+		}
+		g.calleeLast = g.emit("}")
+		return calleeDeref
+	}
 	g.calleeFirst = g.emit("func callee(a *int) *int {")
 	switch g.calleeKind {
 	case 0:
@@ -246,7 +283,7 @@ func (g *p01Gen) emitCallee() int {
 func Harness_P01() {
 	n := ndParam("STMTS", 2)
 	compound := ndParam("COMPOUND", 5) // how many of the compound forms are enabled (0..6)
-	g := &p01Gen{x: true, y: true, g: true, live: true, calleeKind: -1, simple: ndParam("SIMPLE", 9)}
+	g := &p01Gen{x: true, y: true, g: true, live: true, calleeKind: -1, simple: ndParam("SIMPLE", 9), callees: ndParam("CALLEES", 7)}
 	g.emit("package p")
 	g.emit("")
 	g.emit("var flag0, flag1, flag2, flag3, calleeflag, gflag bool")
